@@ -38,12 +38,16 @@ Inductive case :=
   (* net.ParseCIDR on IPv4 / IPv6 text (no dotted-quad tail, no zone) *)
 | CaseCidr (txt : list N) (res : option ipnet)
   (* the handler in front of a scripted next handler and Queryer; wf: the A
-     response's alias chain was generated well-formed starting at the qname *)
-| CaseServe (cf : config) (q : query) (down : option (msg * N)) (work : bool) (al : alookup) (wf : bool) (o : obs)
+     response's alias chain was generated well-formed starting at the qname;
+     cut: the request tree's bound as synthesise reads it — None: nothing folded
+     a cut into the tree's ResponseMeta, Some s: the earliest cut folded in (by
+     the next handler, the Queryer or the caller's context) lies s whole
+     seconds ahead (0: not ahead) *)
+| CaseServe (cf : config) (q : query) (down : option (msg * N)) (work : bool) (al : alookup) (cut : option N) (wf : bool) (o : obs)
   (* the same through the real server: a UDP query to server.Server running the pipeline
      [dns64; scripted next] with the auto-wired pipeline Queryer; the reply as read from the socket
      (o_same is not observable there) *)
-| CaseWire (cf : config) (q : query) (down : option (msg * N)) (s : sub_script) (wf : bool) (o : obs).
+| CaseWire (cf : config) (q : query) (down : option (msg * N)) (s : sub_script) (cut : option N) (wf : bool) (o : obs).
 
 (* ---------------- equality tests ---------------- *)
 Definition opt_eqb {A} (f : A -> A -> bool) (a b : option A) : bool :=
@@ -110,9 +114,9 @@ Definition check_case (c : case) : bool :=
   | CaseEde rcode code res =>
       Bool.eqb (is_dnssec_failure (mk_msg false 1 rcode false (match code with Some c => Some [c] | None => None end) [] [])) res
   | CaseCidr txt res => opt_eqb ipnet_eqb (if existsb (N.eqb 58) txt then parse_cidr6 txt else parse_cidr4 txt) res
-  | CaseServe cf q down work al wf o =>
-      result_matches (serve cur cf q down work al) o
-  | CaseWire cf q down s wf o => result_matches_wire (serve_wire cf q down s) o
+  | CaseServe cf q down work al cut wf o =>
+      result_matches (serve cur cf q down work al cut) o
+  | CaseWire cf q down s cut wf o => result_matches_wire (serve_wire cf q down s cut) o
   end.
 
 (* ---------------- specification oracle ---------------- *)
@@ -146,7 +150,7 @@ Definition ptr_candidates (cf : config) (addr : list N) : list (list N) :=
     | None => []
     end) (spec_prefixes cf).
 
-Definition spec_serve (cf : config) (q : query) (down : option (msg * N)) (work : bool) (al : alookup) (wf : bool) (o : obs) : bool :=
+Definition spec_serve (cf : config) (q : query) (down : option (msg * N)) (work : bool) (al : alookup) (cut : option N) (wf : bool) (o : obs) : bool :=
   let c := compile cf in
   let down_ans := match down with Some (m, _) => m_answer m | None => [] end in
   let new_aaaa := if o_written o then filter (fun r => is_aaaa r && negb (rr_in r down_ans)) (o_answer o) else [] in
@@ -176,11 +180,14 @@ Definition spec_serve (cf : config) (q : query) (down : option (msg * N)) (work 
                                 | RAAAA o' t _ =>
                                     forallb (fun a => match a with RA _ ta _ => t <=? ta | _ => true end) (m_answer ar)
                                     && (t <=? spec_negative_ttl m)
+                                    && match cut with Some s => t <=? s | None => true end
                                     && implb wf (list_eqb (lower o') (lower (chain_terminal 16 (q_name q) (m_answer ar))))
                                 | _ => true
                                 end) new_aaaa
        | _, _ => false
        end
+  (* a synthesised answer section (alias chain included) does not outlive the request tree *)
+  && implb synth match cut with Some s => forallb (fun r => rr_ttl r <=? s) (o_answer o) | None => true end
   (* never AD on a synthesised or AAAA-filtered reply *)
   && implb (o_written o && (synth || existsb (fun r => is_aaaa r && negb (rr_in r (o_answer o))) down_ans))
        (negb (o_ad o))
@@ -239,6 +246,6 @@ Definition spec_case (c : case) : bool :=
   | CaseEde rcode code res =>
       Bool.eqb res ((rcode =? 2) && match code with Some c => existsb (N.eqb c) spec_dnssec_codes | None => false end)
   | CaseCidr txt res => true
-  | CaseServe cf q down work al wf o => spec_serve cf q down work al wf o
-  | CaseWire cf q down s wf o => spec_serve cf q down false (al_of_script s) wf o
+  | CaseServe cf q down work al cut wf o => spec_serve cf q down work al cut wf o
+  | CaseWire cf q down s cut wf o => spec_serve cf q down false (al_of_script s) cut wf o
   end.
